@@ -115,6 +115,14 @@ def smoke_source():
     parts.append('#[cfg(feature = "core")]\npub fn names_core() { let _ = std::any::type_name::<rusty_paseto::core::PasetoError>(); }')
     parts.append('#[cfg(feature = "generic")]\npub fn names_generic() { let _ = std::any::type_name::<rusty_paseto::generic::GenericParserError>(); }')
     parts.append('#[cfg(feature = "batteries_included")]\npub fn names_prelude() { let _ = std::any::type_name::<rusty_paseto::prelude::GeneralPasetoError>(); }')
+    # auto traits of the public error types do not depend on the feature set: a client that moves errors across threads, or converts
+    # them with `?` into anyhow / Box<dyn Error + Send + Sync>, keeps compiling when a feature is added (witness: this must type-check in
+    # every configuration; the smallest ones establish that the bound holds there)
+    parts.append("fn pv_send_sync<T: Send + Sync + 'static>() {}")
+    parts.append('#[cfg(feature = "core")]\npub fn auto_traits_core() { pv_send_sync::<rusty_paseto::core::PasetoError>(); }')
+    parts.append('#[cfg(feature = "generic")]\npub fn auto_traits_generic() { pv_send_sync::<rusty_paseto::generic::GenericParserError>(); pv_send_sync::<rusty_paseto::generic::GenericBuilderError>(); '
+                 'pv_send_sync::<rusty_paseto::generic::PasetoClaimError>(); }')
+    parts.append('#[cfg(feature = "batteries_included")]\npub fn auto_traits_prelude() { pv_send_sync::<rusty_paseto::prelude::GeneralPasetoError>(); }')
     return "\n\n".join(parts) + "\n"
 
 
